@@ -200,12 +200,15 @@ pub fn random_source(rng: &mut Rng, w: i32, h: i32, solid_weight: u64) -> SrcSpe
         4 => {
             let c2 = (rng.range(0., wf) as f32, rng.range(0., hf) as f32);
             let r2 = rng.range(2., wf + hf) as f32;
-            let r1 = (r2 as f64 * rng.range(0.05, 0.6)) as f32;
+            // (a first circle that is a point now and then; concentric circles now and then; both: a plain radial
+            // gradient written as a two-circle one)
+            let r1 = if rng.chance(0.15) { 0. } else { (r2 as f64 * rng.range(0.05, 0.6)) as f32 };
+            let concentric = rng.chance(0.2);
             // first circle inside the second - or, one time in four, outside it: the gradient is then a cone and
             // shades nothing (transparent) outside that cone, whatever its stops are
             let room = (r2 - r1) as f64 * 0.8;
             let ang = rng.range(0., 6.28);
-            let dist = if rng.chance(0.25) { (r2 - r1) as f64 * rng.range(1.3, 3.) } else { rng.range(0., room) };
+            let dist = if concentric { 0. } else if rng.chance(0.25) { (r2 - r1) as f64 * rng.range(1.3, 3.) } else { rng.range(0., room) };
             let c1 = ((c2.0 as f64 + dist * ang.cos()) as f32, (c2.1 as f64 + dist * ang.sin()) as f32);
             SrcSpec::TwoCircle { stops: random_stops(rng), c1, r1, c2, r2, spread: rng.below(3) as u8 }
         }
